@@ -1,8 +1,9 @@
 SPECIFICATION TraceSpec
-CONSTANTS N = 86400 MaxSteps = 1000 InvertStartBySecTruncation = FALSE CaptureAtJoinEpoch = FALSE MaxJoinSteps = 1000
+CONSTANTS N = 86400 MaxSteps = 1000 InvertStartBySecTruncation = FALSE CaptureAtJoinEpoch = FALSE CacheIgnoresEpoch = FALSE MaxJoinSteps = 1000
 CONSTANT Lons <- LonsAll
 CONSTANT Theta0s <- ThetasAll
 CONSTANT StartSecs <- Secs60
+CONSTANT PriorAngles <- OnePrior
 CONSTANT Plans <- NoPlan
 CONSTANT Dts <- DtsQuick
 INVARIANT TrStartInversionExact
@@ -14,6 +15,7 @@ INVARIANT TrOwnFieldsFixed
 INVARIANT TrDbRowFixed
 INVARIANT TrVelIsRotation
 INVARIANT SiteEpochAgrees
+INVARIANT ConvertIgnoresHistory
 INVARIANT SiteFixed
 INVARIANT VelIsRotation
 INVARIANT Accepted
